@@ -211,21 +211,22 @@ specs = [
               "not BoundCallers). " + vals + regions,
          assumptions=["|symbolic fixnum| < 2^20"]),
     dict(common, id="C11.vars", entry="VerifC11Vars", cases={"quick": vars_q, "thorough": vars_t}, reach=["made"],
-         carves=["C11-undefaulted-var-shadows-default", "C11-initable-not-inherited"],
+         carves=["C11-initable-not-inherited"],
          note="Instance variables, accessors and init keywords: per flavor (concrete per case) the shared variable x is not "
               "declared / declared with a symbolic default / declared without default, options gettable x, settable x, "
               "x initable, (:default-init-plist (:zzk k_i)), own variable initable; every flavor also has an own variable "
               "with a symbolic default. Every admissible order of the defflavor forms (ord=-1) or a pseudo-random one. "
               "Asserted for an instance of every flavor: own variables of all components present with their defaults; x "
-              "present iff declared by a component, value = first default in component order (nil if none); (send inst :x) "
+              "present iff declared by a component, value = the default of the FIRST DECLARATION in component order (nil when that "
+              "declaration is a bare x: slip gives every declared variable the default nil); (send inst :x) "
               "works iff some component declares it gettable and returns that value, else signals; (send inst :set-x v) "
               "likewise and sets x; (make-instance f :x v) accepted and effective when some component declares x initable; "
               "own initable variable initable; Flavor.keywords[:zzk] = first in component order and (make-instance f :zzk v) "
               "accepted iff declared by a component. Symbolic: all defaults, k_i, v (|v| < 2^20). Not asserted: rejection "
               "of :x when no component declares x initable (slip treats an empty initable set as 'all initable'). "
-              "Regions: C11-undefaulted-var-shadows-default = a flavor lists x without default in front of a component's "
-              "default; C11-initable-not-inherited = x initable only through a component while the flavor has an own "
-              "non-empty initable list without x.",
+              "Region (fixed, asserted): C11-initable-not-inherited = x initable only through a component while the flavor has an own "
+              "non-empty initable list without x. The former carve C11-undefaulted-var-shadows-default (a bare x in front of a "
+              "component's default) was a false alarm and is gone: the reference now takes the first declaration.",
          assumptions=["|symbolic fixnum| < 2^20"]),
 ]
 json.dump(specs, open(OUT, "w"), indent=0)
